@@ -2,7 +2,7 @@
    Property theorems only; proofs live in Integrate.v. *)
 From Coq Require Import List Ring_theory.
 Import ListNotations.
-From CK Require Import Base Integrate.
+From CK Require Import Base Circ Integrate.
 
 (* For every commutative semiring R, every family of linear functionals Int (sum over a finite
    domain, or an integral), every well-formed smooth and decomposable circuit [c] (any DAG, any
